@@ -1,8 +1,101 @@
+import Corro.Model.Pack
 import Driver.Util
-/-! Driver stub for C09: not built yet. -/
+/-!
+Line protocol driver for C09.
+
+Values of packed keys (`<vals>`): comma separated, `-` = empty list;
+  `n` null · `i<decimal i64>` · `r<16 hex digits of f64::to_bits>` · `t<hex of the UTF-8 bytes>` ·
+  `b<hex bytes>` (`t` / `b` alone = empty text / blob).
+Byte strings: lower-case hex, `-` = empty.
+
+  pack <vals>       → `ok <hex>` | `err abort`
+  ext_pack <vals>   → `ok <hex>`            (the extension's `crsql_pack_columns`; model = `pack`)
+  unpack <hex>      → `ok <vals>` | `err abort` | `err misuse`
+-/
 namespace Driver.C09
+open Corro.Pack
+
+def hexVal (c : Char) : Option Nat :=
+  if '0' ≤ c ∧ c ≤ '9' then some (c.toNat - 48)
+  else if 'a' ≤ c ∧ c ≤ 'f' then some (c.toNat - 87)
+  else none
+
+def hexAux : List Char → Bytes → Option Bytes
+  | [], acc => some acc.reverse
+  | [_], _ => none
+  | a :: b :: r, acc => do
+    let x ← hexVal a; let y ← hexVal b
+    hexAux r (UInt8.ofNat (x * 16 + y) :: acc)
+
+def hexChars? (cs : List Char) : Option Bytes := hexAux cs []
+
+/-- op-level byte string: `-` is the empty string -/
+def hex? (s : String) : Option Bytes := if s = "-" then some [] else hexChars? s.toList
+
+def hexDigit (n : Nat) : Char := if n < 10 then Char.ofNat (48 + n) else Char.ofNat (87 + n)
+
+def toHexRaw (bs : Bytes) : String :=
+  bs.foldl (fun s b => (s.push (hexDigit (b.toNat / 16))).push (hexDigit (b.toNat % 16))) ""
+
+def toHex (bs : Bytes) : String := if bs.isEmpty then "-" else toHexRaw bs
+
+def hexNatAux : List Char → Nat → Option Nat
+  | [], acc => some acc
+  | c :: r, acc => do let x ← hexVal c; hexNatAux r (acc * 16 + x)
+
+def parseVal (s : String) : Option Val :=
+  match s.toList with
+  | ['n'] => some .null
+  | 'i' :: r => do
+    let v ← (String.ofList r).toInt?
+    if -9223372036854775808 ≤ v ∧ v < 9223372036854775808 then some (.int v) else none
+  | 'r' :: r => if r.length = 16 then (hexNatAux r 0).map .real else none
+  | 't' :: r => do
+    let bs ← hexChars? r
+    if validUtf8 bs then some (.text bs) else none
+  | 'b' :: r => (hexChars? r).map .blob
+  | _ => none
+
+def parseVals (s : String) : Option (List Val) := (splitList s).mapM parseVal
+
+def hex16 (n : Nat) : String :=
+  String.ofList ((List.range 16).map (fun i => hexDigit (n / 16 ^ (15 - i) % 16)))
+
+def showVal : Val → String
+  | .null => "n"
+  | .int v => s!"i{v}"
+  | .real b => "r" ++ hex16 b
+  | .text bs => "t" ++ toHexRaw bs
+  | .blob bs => "b" ++ toHexRaw bs
+
+def showVals (vs : List Val) : String := showList (vs.map showVal)
+
+def showUnpackErr : UnpackErr → String
+  | .abort => "err abort"
+  | .misuse => "err misuse"
+
+def run (toks : List String) : Option String :=
+  match toks with
+  | ["pack", vs] => do
+    let vs ← parseVals vs
+    match pack vs with
+    | .ok bs => pure ("ok " ++ toHex bs)
+    | .error _ => pure "err abort"
+  | ["ext_pack", vs] => do
+    let vs ← parseVals vs
+    match pack vs with
+    | .ok bs => pure ("ok " ++ toHex bs)
+    | .error _ => pure "err abort"
+  | ["unpack", h] => do
+    let bs ← hex? h
+    match unpack bs with
+    | .ok vs => pure ("ok " ++ showVals vs)
+    | .error e => pure (showUnpackErr e)
+  | _ => none
+
 abbrev State := Unit
 def init : State := ()
-def step (st : State) (_toks : List String) : Option (State × String) := some (st, "bad-op")
+def step (st : State) (toks : List String) : Option (State × String) := (run toks).map (st, ·)
+
 end Driver.C09
 def main : IO Unit := Driver.runLoop Driver.C09.init Driver.C09.step
